@@ -34,8 +34,8 @@ impl Prop for C03 {
         ]
     }
     fn worker(&self, ctx: &WorkerCtx) -> Box<dyn Worker> {
-        // checking a term of <= 60 nodes takes milliseconds; 4 s of CPU without an answer is a hang
-        crate::worker::set_cpu_budget(4.0);
+        // checking a term of <= 60 nodes takes milliseconds; 12 s of CPU without an answer (dropping the worker's long-lived VM inside a case can itself cost seconds) is a hang
+        crate::worker::set_cpu_budget(12.0);
         Box::new(W { small: ctx.phase == "small-terms", vm: None, uses: 0 })
     }
 }
@@ -1124,7 +1124,7 @@ enum Gl {
 
 impl W {
     fn check(&mut self, name: &str, src: &str) -> Gl {
-        if self.vm.is_none() || self.uses > 400 {
+        if self.vm.is_none() || self.uses > 120 {
             self.vm = Some(vm_with(Settings::PLAIN));
             self.uses = 0;
         }
@@ -1144,7 +1144,7 @@ impl W {
 impl Worker for W {
     fn gen(&mut self, rng: &mut Rng, _idx: u64) -> Option<Value> {
         let depth = if self.small { 1 + rng.below(2) as u32 } else { 2 + rng.below(4) as u32 };
-        let t = if !self.small && rng.chance(1, 8) { gen_idiom(rng) } else { gen_tm(rng, depth, &mut Vec::new()) };
+        let t = if !self.small && rng.chance(1, 12) { gen_idiom(rng) } else { gen_tm(rng, depth, &mut Vec::new()) };
         if t.size() > 60 {
             return None;
         }
@@ -1184,6 +1184,20 @@ impl Worker for W {
             (Ok(wt), Gl::Rejected(e)) => {
                 let mut v = viol("typable-term-rejected", format!("W types the term as `{}` but the checker rejects it: {}", wt, e));
                 v.sig["error"] = json!(error_class(e));
+                // the principal type has a type variable inside a record / tuple (a field holding a
+                // polymorphic value such as `No` or `[]`)
+                let mut depth = 0;
+                let mut poly_field = false;
+                let b = wt.as_bytes();
+                for i in 0..b.len() {
+                    match b[i] {
+                        b'{' => depth += 1,
+                        b'}' => depth -= 1,
+                        b't' if depth > 0 && i + 1 < b.len() && b[i + 1].is_ascii_digit() && (i == 0 || !b[i - 1].is_ascii_alphanumeric()) => poly_field = true,
+                        _ => {}
+                    }
+                }
+                v.sig["record_with_polymorphic_field"] = json!(poly_field);
                 return v;
             }
             (Err(e), Gl::Accepted(gt)) => {
